@@ -741,6 +741,79 @@ pub fn run_child(ctx: &Ctx) -> Report {
         base += n_c;
     }
 
+    // ---- (f'') character alignment in every text input: an ASCII run of every length 0..=300 followed by 2-, 3- and
+    //       4-byte characters (so that a multi-byte character straddles every byte offset up to 300), placed in the
+    //       path, a query name / value, a signed header value, the access key, the session token, the date, the
+    //       charset parameter, a form value and the configured region / service — once in an otherwise valid request and
+    //       once followed by something that gets the input refused (whatever echoes or clips the text meets every
+    //       alignment)
+    {
+        let tails = ["\u{e9}", "\u{65e5}\u{672c}", "\u{1f600}\u{e9}\u{65e5}"];
+        let fields = 11usize;
+        let n_a = (fields * 301 * tails.len() * 2) as u64;
+        let b = base;
+        let part = par_sweep(n_a, |i, st| {
+            let mut x = i as usize;
+            let spoil = x % 2 == 1;
+            x /= 2;
+            let tail = tails[x % tails.len()];
+            x /= tails.len();
+            let k = x % 301;
+            let field = x / 301;
+            let text = format!("{}{}", "a".repeat(k), tail);
+            let latin = |t: &str| -> Vec<u8> { t.chars().map(|c| if (c as u32) < 256 { c as u32 as u8 } else { b'?' }).collect() };
+            let carrier = if i % 3 == 0 { Carrier::Query } else { Carrier::Header };
+            let mut plan = e2e::base_plan(carrier);
+            let mut cfg = Cfg::basic(now);
+            let mut raw_uri_suffix: Option<String> = None;
+            match field {
+                0 => plan.wire_path = Some(format!("/{}{}", text, if spoil { "/../.." } else { "" })),
+                1 => plan.wire_path = Some(format!("/../{}{}", text, if spoil { "%zz" } else { "" })),
+                2 => raw_uri_suffix = Some(format!("k={}{}", text, if spoil { "%zz" } else { "" })),
+                3 => raw_uri_suffix = Some(format!("{}{}=v", text, if spoil { "%" } else { "" })),
+                4 => {
+                    plan.headers.push(("X-Meta".into(), text.as_bytes().to_vec()));
+                    plan.signed.push("x-meta".into());
+                    if spoil {
+                        plan.signed.push("x-absent".into());
+                    }
+                }
+                5 => {
+                    plan.access_key = String::from_utf8_lossy(&latin(&text)).to_string();
+                    if spoil {
+                        plan.scope = format!("{}/extra", plan.scope);
+                    }
+                }
+                6 => plan.token = Some(if spoil { format!("{}\u{7f}", text) } else { text.clone() }),
+                7 => plan.date_text = format!("{}{}", if spoil { "" } else { "20150830T123600Z" }, text),
+                8 => {
+                    plan.method = "POST".into();
+                    plan.body = b"a=1".to_vec();
+                    plan.headers.push(("Content-Type".into(), format!("application/x-www-form-urlencoded; charset={}{}", if spoil { "" } else { "utf-8; x=" }, text).into_bytes()));
+                    cfg.fold = true;
+                }
+                9 => {
+                    plan.method = "POST".into();
+                    plan.body = format!("a={}{}", text, if spoil { "%zz" } else { "" }).into_bytes();
+                    plan.headers.push(("Content-Type".into(), b"application/x-www-form-urlencoded".to_vec()));
+                    cfg.fold = true;
+                }
+                _ => {
+                    cfg.region = text.clone();
+                    cfg.service = if spoil { text.clone() } else { "service".into() };
+                }
+            }
+            let built = build(&plan);
+            let mut w = WireReq::from_wire(&built.wire);
+            if let Some(suffix) = raw_uri_suffix {
+                w.uri = format!("{}{}{}", w.uri, if w.uri.contains('?') { "&" } else { "?" }, suffix);
+            }
+            total(b + i as u64, "character-alignment", w, &cfg, &std_prov, st);
+        });
+        st = st.merge(part);
+        base += n_a;
+    }
+
     // ---- (g) builders, (h) error conversions, (i) derivation extremes
     {
         use scratchstack_aws_signature::auth::SigV4AuthenticatorResponse;
@@ -889,7 +962,7 @@ pub fn run_child(ctx: &Ctx) -> Report {
     Report {
         stats: st,
         rule: format!(
-            "every case runs under catch_unwind inside a child process whose address space is limited to 12 GiB and whose run time is limited by the parent (abnormal termination, allocation without bound and a case that never returns = violation), with overflow checks and debug assertions on, alternately with log formatting on, against a strict key provider (panics when called without readiness; not ready at once / answer pending for a share of the cases): (a) the C13 defect product on both carriers x {{default,S3,fold}} x 3 requirement sets (incl. non-ASCII and empty names); (b) every printable ASCII byte substituted and inserted at every position of 5 URI templates, every two-character escape %c1c2 over 94^2 in path, query value and query name, 40 special URIs (asterisk-, authority-, absolute-form, truncated escapes, 40-60 kB paths / queries) x 2 carriers x 3 options; (b') 45 request targets of every form (origin, absolute, authority incl. bare host and IPv6, asterisk, empty, fragment, scheme without path) x 6 form bodies x 3 content types x {{default,S3,fold,S3+fold}} x carrier, so that the target is rebuilt under form folding; (c) every byte HeaderValue admits (tab, 0x20-0x7E, 0x80-0xFF) substituted and inserted at every{} position of Authorization / X-Amz-Date / Date / Content-Type / token values; (c') every empty, one-byte and two-byte value of a Content-Type parameter (charset in two spellings, boundary, a trailing parameter; form and JSON types) and of the Credential / SignedHeaders / Signature fields; (c3) Authorization headers made of every sequence of up to 4 (thorough 5) fields over ten kinds (Credential / SignedHeaders / Signature each well-formed, wrong or empty, an unknown parameter, a bare word, an empty field) with ', ' or ',' between them, each with and without the logger formatting its records; (c4) requests with 24574 / 24575 / 24576 distinct header names (the most the http crate admits) and 32700 values of one name, plain and as a folded form POST with Content-Length, under 3 option sets on both carriers; (c'') SignedHeaders lists of 10..104 entries that differ in letter case only, in 7 structured arrangements x 8 rotations and 60 (thorough 400) fixed shuffles per length, on both carriers; (d) bodies of {} lengths (around 21845, 32768, 65535, up to 200000) x 8 fills (expanding bytes, pairs, UTF-8, separators, escapes) x 11 content types x fold x carrier; all 256 one-byte and every {}th two-byte body as a UTF-8 form; {} charset labels x all one-byte, every {}th two-byte and 4 special bodies; (e) 9 capacities x secret lengths 0..100 x 4 fills; (f) every C16 timestamp string on both carriers and through the unstable API; (f') server clocks within 901 s of the smallest and largest DateTime<Utc>, the epoch, years 0 / 1 / 9999 / 10000 and the 32-bit limits x 11 request dates whose UTC year is -1, 0, 9999 or 10000; (g) every subset of set fields of the three builders; (h) every SignatureError shape x 4 messages through Display/Debug/source/code/status/From<Box>; (i) derivation with empty / non-ASCII / 10 kB scopes and NaiveDate::MIN/MAX/year 0/-1/10000; canonicalisation helpers on degenerate and 1 MiB inputs. Oracle: a value or an error, never a panic, abort, hang or non-SignatureError. states = (sweep, outcome class)",
+            "every case runs under catch_unwind inside a child process whose address space is limited to 12 GiB and whose run time is limited by the parent (abnormal termination, allocation without bound and a case that never returns = violation), with overflow checks and debug assertions on, alternately with log formatting on, against a strict key provider (panics when called without readiness; not ready at once / answer pending for a share of the cases): (a) the C13 defect product on both carriers x {{default,S3,fold}} x 3 requirement sets (incl. non-ASCII and empty names); (b) every printable ASCII byte substituted and inserted at every position of 5 URI templates, every two-character escape %c1c2 over 94^2 in path, query value and query name, 40 special URIs (asterisk-, authority-, absolute-form, truncated escapes, 40-60 kB paths / queries) x 2 carriers x 3 options; (b') 45 request targets of every form (origin, absolute, authority incl. bare host and IPv6, asterisk, empty, fragment, scheme without path) x 6 form bodies x 3 content types x {{default,S3,fold,S3+fold}} x carrier, so that the target is rebuilt under form folding; (c) every byte HeaderValue admits (tab, 0x20-0x7E, 0x80-0xFF) substituted and inserted at every{} position of Authorization / X-Amz-Date / Date / Content-Type / token values; (c') every empty, one-byte and two-byte value of a Content-Type parameter (charset in two spellings, boundary, a trailing parameter; form and JSON types) and of the Credential / SignedHeaders / Signature fields; (c3) Authorization headers made of every sequence of up to 4 (thorough 5) fields over ten kinds (Credential / SignedHeaders / Signature each well-formed, wrong or empty, an unknown parameter, a bare word, an empty field) with ', ' or ',' between them, each with and without the logger formatting its records; (c4) requests with 24574 / 24575 / 24576 distinct header names (the most the http crate admits) and 32700 values of one name, plain and as a folded form POST with Content-Length, under 3 option sets on both carriers; (c'') SignedHeaders lists of 10..104 entries that differ in letter case only, in 7 structured arrangements x 8 rotations and 60 (thorough 400) fixed shuffles per length, on both carriers; (d) bodies of {} lengths (around 21845, 32768, 65535, up to 200000) x 8 fills (expanding bytes, pairs, UTF-8, separators, escapes) x 11 content types x fold x carrier; all 256 one-byte and every {}th two-byte body as a UTF-8 form; {} charset labels x all one-byte, every {}th two-byte and 4 special bodies; (e) 9 capacities x secret lengths 0..100 x 4 fills; (f) every C16 timestamp string on both carriers and through the unstable API; (f') server clocks within 901 s of the smallest and largest DateTime<Utc>, the epoch, years 0 / 1 / 9999 / 10000 and the 32-bit limits x 11 request dates whose UTC year is -1, 0, 9999 or 10000; (f'') an ASCII run of every length 0..300 followed by 2-, 3- and 4-byte characters in each of 11 text inputs (path, climbing path, query value / name, signed header value, access key, session token, date, charset parameter, form value, configured region / service), once in a plausible request and once made to be refused; (g) every subset of set fields of the three builders; (h) every SignatureError shape x 4 messages through Display/Debug/source/code/status/From<Box>; (i) derivation with empty / non-ASCII / 10 kB scopes and NaiveDate::MIN/MAX/year 0/-1/10000; canonicalisation helpers on degenerate and 1 MiB inputs. Oracle: a value or an error, never a panic, abort, hang or non-SignatureError. states = (sweep, outcome class)",
             if thorough { "" } else { " (every 3rd for Authorization)" }, lens.len(), two_stride, LABELS.len(), label_stride
         ),
         bounds: json!({"cases": base}),
